@@ -3,7 +3,7 @@
    request   [[st, role, treq, [pre-history msgs]], [task..], [choice..]]
      msg    = [ty, id, [own]?, pd, gapfill]
      instr  = [0,msg] send | [1,msg] send-rest | [2] send_test_req | [3,s,ua] _state_set hook | [4] hook
-            | [5,r] role | [6,b,e,[declined..]] resend | [8,e] raise
+            | [5,r] role | [6,b,e,[declined..]] resend | [8,e] raise | [9] finally of the resend try
      task   = [abort, [instr..]]
    The pre-history is sent by one application task running alone from a fresh session (numbers
    from 1) in state ACTIVE; then state / TestReqID are set and the tasks are scheduled.
@@ -47,6 +47,7 @@ Definition get_instr (s : sx) : option instr :=
   | SL [SI 5; SI r] => Some (ISetRole r)
   | SL [SI 6; SI b; SI e; d] => option_map (IResend b e) (get_list get_z d)
   | SL [SI 8; SI e] => Some (IRaise (err_of e))
+  | SL [SI 9] => Some IFinally
   | _ => None
   end.
 
